@@ -1189,6 +1189,8 @@ class Filterbank(ABC):
         gulp = max(2 * max_delay, gulp)
         fold_ar = np.zeros(nbins * nints * nbands, dtype="float32")
         count_ar = np.zeros(nbins * nints * nbands, dtype="int32")
+        # Sub-integrations and the phase model span the selected samples, not the whole file
+        nsamps_sel = (self.header.nsamples - start) if nsamps is None else nsamps
         for nsamps_r, ii, data in self.read_plan(
             gulp=gulp,
             start=start,
@@ -1205,7 +1207,7 @@ class Filterbank(ABC):
                 self.header.tsamp,
                 period,
                 accel,
-                self.header.nsamples,
+                nsamps_sel,
                 nsamps_r,
                 self.header.nchans,
                 nbins,
